@@ -6,7 +6,8 @@
    remaining composition (builder's counting pass / backing arrays -> spec) is exercised by the
    correspondence run only.  See DESIGN.md 6 C01. *)
 From Coq Require Import List NArith.
-Require Import ZV.Bytes ZV.Kernel ZV.Streams ZV.Chunks ZV.Opt ZV.Spec ZV.Layout ZV.LayoutProof ZV.WriteRead ZV.Backing.
+Require Import ZV.Bytes ZV.Kernel ZV.Streams ZV.Chunks ZV.Opt ZV.Spec ZV.Layout ZV.LayoutProof ZV.WriteRead.
+Require ZV.Backing.
 Import ListNotations.
 Open Scope N_scope.
 
@@ -95,8 +96,8 @@ Print Assumptions C01_postings_write_read.
    order (no list overwrites its neighbour).  Backing.overflow_overwrites shows the model exhibits the
    overwrite when a count is too small. *)
 Theorem C01_backing_arrays_no_overlap : forall (A : Type) (dflt : A) (counts : list nat) ops,
-  Forall (fun op => (fst op < length counts)%nat) ops -> bounded A counts ops ->
+  Forall (fun op => (fst op < length counts)%nat) ops -> Backing.bounded A counts ops ->
   forall p, (p < length counts)%nat ->
-  slice A counts (Backing.run A counts (init A dflt counts) ops) p = appended A ops p.
-Proof. exact backing_no_overlap. Qed.
+  Backing.slice A counts (Backing.run A counts (Backing.init A dflt counts) ops) p = Backing.appended A ops p.
+Proof. exact Backing.backing_no_overlap. Qed.
 Print Assumptions C01_backing_arrays_no_overlap.
